@@ -3,8 +3,8 @@
 
    Two namespace mappings occur in the code and both are inputs here: `m_eval`, what evaluate() builds for the first
    query (namespaces None -> {"": self.namespace}; a mapping, even an empty one -> that mapping), and `m_create`,
-   `Namespaces(namespaces or Namespaces({"": self.namespace}))`, used by _create_by_xpath.  They are the same mapping
-   unless `namespaces` is an empty mapping. *)
+   used by _create_by_xpath.  Since fix 5732bc1 (`Namespaces({"": self.namespace}) if namespaces is None else namespaces`)
+   they are the same mapping; both stay inputs of the model. *)
 From Delb.Base Require Import PyStr.
 From Delb.Tree Require Import ATree ITree.
 From Delb.XPath Require Import Ast Nav Eval.
@@ -57,7 +57,7 @@ Definition new_node (m : nsmap) (parent : itree) (prefix : option str) (local : 
   (* after append_children the new element inherits the parent's in-scope default namespace declaration *)
   let inherited := match in_scope_default (ipayload parent) with Some d => [(XMLNS_NS, [], d)] | None => [] end in
   INode 0%N (PTag ns local (attrs ++ inherited)) [].
-(* the prefixes of the name test and of the derived attributes are declared (fix f228380) *)
+(* the prefixes of the name test and of the derived attributes are declared (fixes f228380, 8d47eb7) *)
 Definition prefixes_declared (m : nsmap) (prefix : option str) (ds : list (str * str * str)) : bool :=
   forallb (fun p => null p || match ns_get m p with Some _ => true | None => false end)
           (opt_default [] prefix :: map (fun d => fst (fst d)) ds).
@@ -113,14 +113,12 @@ Fixpoint create_in (vis : itree -> bool) (m : nsmap) (ss : list step) (pos : npa
           | _ :: _, LocationStep _ (NameMatchTest prefix local) ps =>
               match derived_preds ps with
               | Some ds =>
-                  if negb (prefixes_declared m prefix ds) then CFault t0 (FRejected XPathEvaluationError)
-                  else
-                    let idx := insert_index vis (tkids t0) in
-                    (* node.append_children(new_node); node = new_node; the remaining steps run on the new node *)
-                    match create_in vis m r (pos ++ [idx]) (new_node m t0 prefix local ds) with
-                    | COk n' p => COk (insert_kid t0 idx n') p
-                    | CFault n' f => CFault (insert_kid t0 idx n') f
-                    end
+                  let idx := insert_index vis (tkids t0) in
+                  (* node.append_children(new_node); node = new_node; the remaining steps run on the new node *)
+                  match create_in vis m r (pos ++ [idx]) (new_node m t0 prefix local ds) with
+                  | COk n' p => COk (insert_kid t0 idx n') p
+                  | CFault n' f => CFault (insert_kid t0 idx n') f
+                  end
               | None => CFault t0 (FCrash OtherError)          (* InvalidCodePath *)
               end
           | _, _ => CFault t0 (FCrash AssertionError)          (* assert isinstance(node_test, NameMatchTest) *)
@@ -132,6 +130,18 @@ Fixpoint create_in (vis : itree -> bool) (m : nsmap) (ss : list step) (pos : npa
           end
       | (_, None) => CFault t0 (FRejected AmbiguousTreeError)
       end
+  end.
+
+(* before anything is created: the prefixes of ALL steps (fix 8d47eb7); None = no objection *)
+Fixpoint pre_check (m : nsmap) (ss : list step) : option fault :=
+  match ss with
+  | [] => None
+  | LocationStep _ (NameMatchTest prefix _) ps :: r =>
+      match derived_preds ps with
+      | Some ds => if prefixes_declared m prefix ds then pre_check m r else Some (FRejected XPathEvaluationError)
+      | None => Some (FCrash OtherError)                   (* InvalidCodePath *)
+      end
+  | _ :: _ => Some (FCrash AssertionError)                  (* assert isinstance(step.node_test, NameMatchTest) *)
   end.
 
 Inductive foc_res :=
@@ -150,15 +160,17 @@ Definition foc (vis : itree -> bool) (root : itree) (m_eval m_create : nsmap) (e
        | Ok [] =>
            match e, ctx with
            | LocationPath true ss :: _, _ =>
+               match pre_check m_create ss with Some f => FocFault root f | None =>
                match create_in vis m_create ss [] D with
                | COk D' p => FocOk (doc_root D' root) p
                | CFault D' f => FocFault (doc_root D' root) f
-               end
+               end end
            | LocationPath false ss :: _, _ :: q =>
+               match pre_check m_create ss with Some f => FocFault root f | None =>
                match create_in vis m_create ss ctx (opt_default root (subtree root q)) with
                | COk t' p => FocOk (replace_at root q t') p
                | CFault t' f => FocFault (replace_at root q t') f
-               end
+               end end
            | _, _ => FocFault root (FCrash OtherError)
            end
        end.
